@@ -8,6 +8,12 @@ be tied to the real edge node by differential execution.
   nodeabs enable <d> clock=<ms>        nodeabs disable <d> clock=<ms>
   nodeabs rebirth clock=<ms>           nodeabs ncmd clock=<ms>      (NCMD Node Control/Rebirth = true)
 
+The three birth operations (`online`, `rebirth`, `ncmd`) take an optional `order=<d,…>` before
+`clock=`: the permutation parameter of the model (the iteration order of the device map at this
+birth, as observed). `Node.devs` is put into that order — the listed devices first, in the order
+given, the unlisted ones behind in their present order — before the operation runs; the listed
+names must be registered and pairwise distinct. No other operation looks at the order of `devs`.
+
 Answer: the messages handed over, in order, `;`-separated, e.g.
 `NBIRTH:seq=0:bd=3;DBIRTH:d=1:seq=1;NDATA:seq=2`; `offline` answers the new will `WILL:bd=<n>`;
 `-` if nothing is handed over. Device names are numbers (`7` or `d7`). Unknown / malformed → `bad-op`.
@@ -43,6 +49,21 @@ def nodup (l : List Nat) : Bool :=
   | [] => true
   | x :: t => !t.contains x && nodup t
 
+/-- put `devs` into the observed iteration order: the listed ones first, the others behind -/
+def reorderDevs (order : List Nat) (devs : List Dev) : List Dev :=
+  order.filterMap (fun d => devs.find? (fun x => x.name == d)) ++
+    devs.filter (fun x => !order.contains x.name)
+
+/-- take the `order=` token (if any) out of a request; `none` = malformed -/
+def takeOrder (ws : List String) : Option (List String × Option (List Nat)) :=
+  match ws.filter (fun w => w.startsWith "order=") with
+  | [] => some (ws, none)
+  | [w] =>
+    match (kvGet [w] "order").bind (fun v => mapM? parseDevName (splitList v)) with
+    | some names => if nodup names then some (ws.filter (fun w => !w.startsWith "order="), some names) else none
+    | none => none
+  | _ => none
+
 def stepNodeAbs (st : NodeAbsD) (ws : List String) : NodeAbsD × String :=
   match ws with
   | ["new", devs] =>
@@ -55,6 +76,21 @@ def stepNodeAbs (st : NodeAbsD) (ws : List String) : NodeAbsD × String :=
         if nodup names then ({ node := { devs := names.map fun d => { name := d } } }, "ok")
         else (st, "bad-op")
   | _ =>
+    match takeOrder ws with
+    | none => (st, "bad-op")
+    | some (ws, order) =>
+    -- `order=` only on a birth operation, only registered devices
+    let orderOk : Bool :=
+      match order with
+      | none => true
+      | some names =>
+        names.all (fun d => (st.node.findDev d).isSome) &&
+        (match ws with | ["online", _] | ["rebirth", _] | ["ncmd", _] => true | _ => false)
+    if !orderOk then (st, "bad-op") else
+    let st : NodeAbsD :=
+      match order with
+      | none => st
+      | some names => { node := { st.node with devs := reorderDevs names st.node.devs } }
     match kvNat ws "clock" with
     | none => (st, "bad-op")
     | some clk =>
